@@ -38,15 +38,16 @@ def run(chk):
                       'values are small ints / strs / None / lists of them; batches have two elements',
                       'a rejected batch may keep any of its valid elements (alts), as the statement allows']
   # 1. the model: TLC proves the invariant and the action property on the intended semantics
-  mc = ['C03_list.cfg', 'C03_obj_cov.cfg', 'C03_dict_cov.cfg', 'C03_obj.cfg', 'C03_objp.cfg', 'C03_dict.cfg', 'C03_dictp.cfg']
+  mc = ['C03_list.cfg', 'C03_obj.cfg', 'C03_objp.cfg', 'C03_dict.cfg', 'C03_dictp_2.cfg']
   if thorough:
-    mc += ['C03_list_deep.cfg', 'C03_dict_deep.cfg', 'C03_obj_deep.cfg']
-  cov = {}
+    mc += ['C03_dictp.cfg', 'C03_list_deep.cfg', 'C03_dict_deep.cfg', 'C03_obj_deep.cfg']
   for cfg in mc:
-    # per-action counts (-coverage) slow TLC down a lot: taken on the small configurations only
-    r = typedtree.model_check(chk, cfg, coverage=cfg in ('C03_list.cfg', 'C03_obj_cov.cfg', 'C03_dict_cov.cfg'))
-    for a, (d, t) in (r.coverage or {}).items():
-      cov[a] = cov.get(a, 0) + t
+    typedtree.model_check(chk, cfg)
+  # vacuity of the exhaustive runs: every action has transitions out of the initial states (depth-1 state graph)
+  cov = {}
+  for cfg in ('C03_list_cov.cfg', 'C03_dict_cov.cfg', 'C03_obj_cov.cfg'):
+    for a, n in typedtree.action_counts(chk, cfg).items():
+      cov[a] = cov.get(a, 0) + n
   chk.notes['model_action_coverage'] = dict(sorted(cov.items()))
   for a in ('DSet', 'DSetAttr', 'OSetAttr', 'DRebind1', 'ORebind1', 'DDel', 'DPop', 'DClear', 'DSetDefault', 'DUpdate',
             'DIor', 'DRebind2', 'ORebind2', 'LSet', 'LRebindSet', 'LRebindAppend', 'LRebindInsert', 'LRebind2', 'LDel',
@@ -63,10 +64,11 @@ def run(chk):
   # 2a. TLC searches the size checks *as coded* for a violation of Conforms; the counter-example is replayed
   typedtree.mirror_search(chk, 'C03_mirror.cfg', 'list', False, hits, models['list'])
   # 2b. simulated behaviours; the second pass stays away from the two mechanisms with open findings
-  n1, d1, n2, d2 = (120, 15, 120, 30) if not thorough else (3000, 25, 3000, 40)
+  n1, d1, n2, d2 = (120, 15, 120, 30) if not thorough else (1500, 25, 1500, 40)
   for kind, partial, tag in KINDS:
     add(typedtree.replay_simulated(chk, kind, partial, f'C03_sim_{tag}.cfg', n1, d1, chk.seed, models[kind]))
-    add(typedtree.replay_simulated(chk, kind, partial, f'C03_sim_avoid_{tag}.cfg', n2, d2, chk.seed + 1, models[kind]))
+    if thorough or not partial:
+      add(typedtree.replay_simulated(chk, kind, partial, f'C03_sim_avoid_{tag}.cfg', n2, d2, chk.seed + 1, models[kind]))
   chk.notes['action_outcome_hits'] = dict(sorted(hits.items()))
   chk.require(hits.get('valid_write_rejected', 0) == 0,
               f'the code rejected {hits.get("valid_write_rejected", 0)} writes the specification accepts '
@@ -77,3 +79,8 @@ def run(chk):
   for a in names:
     chk.require(hits.get(a + ':ok', 0) > 0, f'vacuous: no accepted {a} replayed')
     chk.require(hits.get(a + ':err', 0) > 0, f'vacuous: no rejected {a} replayed')
+
+
+def replay(chk, path):
+  chk.rule = f'replay of the behaviour recorded in {path}'
+  typedtree.replay_file(chk, path)
